@@ -17,7 +17,12 @@
     `loopRun` — the in-memory loop of `activities.run_activity`, `daemons._daemon` and one retry
              series of `daemons._timer`: "while not done: execute; with_outcome; sleep(state.delay)";
     `timerRun` — the whole life of `daemons._timer` (interval, no idle);
-    `childrenRaised` — what `kopf.execute()` raises in the parent for the sub-handlers' records.
+    `childrenRaised` — what `kopf.execute()` raises in the parent for the sub-handlers' records;
+    `stepStored` — the gate and one execution on a record re-read from the storage, whatever the spelling of
+             its timestamps (`_as_utc`, e01f630; `stepStoredRaw` = the code before);
+    `namesakeFresh` / `namesakeInherits` — one function registered under one id for two reasons, the second
+             cause superseding the first (f7d6401: top-level handlers start from scratch; their sub-handlers
+             still inherit).
 
   Time is integer ticks (in C11 1 tick = 2^-10 s). The harness only uses multiples of 16 ticks
   (2^-6 s = 15625 µs) so that kopf's microsecond `datetime` arithmetic and float seconds are exact.
@@ -245,14 +250,21 @@ def attemptAt (env : Env) (l : Limits) (now : Int) (r : Rec) (x : Raised) (dur l
   (`_get_basetime`: `datetime.now(tz=utc)`). `parse_iso8601` calls `iso8601.parse_date(val,
   default_timezone=None)`: a string WITHOUT an offset (what `datetime.utcnow().isoformat()` of the kopf
   releases before the TZ-aware clock wrote, and what kopf's own tests feed: `started='2000-01-01T00:00:00'`)
-  stays TZ-naive, and Python refuses to compare or subtract a naive and an aware datetime (TypeError).
-  `Z` and numeric offsets are parsed as aware and behave like `+00:00` (same instant). -/
+  comes back TZ-naive, and Python refuses to compare or subtract a naive and an aware datetime (TypeError).
+  `Z` and numeric offsets are parsed as aware and behave like `+00:00` (same instant).
+  Since e01f630 `HandlerState.from_storage` passes every parsed timestamp through `_as_utc`: a value
+  without a tzinfo gets UTC attached (`val.replace(tzinfo=utc)`: the same digits, i.e. the same ticks
+  in `Rec`), an aware one is left as it is. -/
 
-/-- Which of the two timestamps that decide anything came back TZ-naive from the storage. -/
+/-- Which of the two timestamps that decide anything came back TZ-naive from `parse_iso8601`. -/
 structure Spelling where
   startedNaive : Bool
   delayedNaive : Bool
   deriving DecidableEq, Repr
+
+/-- `progression._as_utc`, applied by `from_storage` to `started`, `stopped` and `delayed`: whatever came
+    back without an offset is UTC now; the instant (the ticks of `Rec`: the digits read as UTC) is kept. -/
+def Spelling.asUtc (_ : Spelling) : Spelling := { startedNaive := false, delayedNaive := false }
 
 /-- One cycle's dealing with one handler, on a record re-read from the storage. -/
 inductive StoredStep where
@@ -261,19 +273,26 @@ inductive StoredStep where
   | att (a : Attempt)
   deriving DecidableEq, Repr
 
-/-- The gate and one execution, with the places where the timestamps are touched in their order:
+/-- The gate and one execution on timestamps TAKEN AS PARSED (the code before e01f630; kept as the
+    variant the regression theorems `naive_*` are about), with the places where the timestamps are
+    touched in their order:
     `sleeping` = `not finished and delayed is not None and delayed > now` (the comparison raises);
     in `execute_handler_once` `state.runtime` = `now - started` is evaluated by the strict timeout check
     (only if `timeout` is set), else after the retries check as the kwarg `runtime=` of the call —
     inside the `try`, so it lands in `except Exception`, whose first statement (the look-ahead)
     evaluates `state.runtime` again and raises out of the function. Only a handler that is refused
     by `retries` alone never looks at `started`. -/
-def stepStored (env : Env) (l : Limits) (sp : Spelling) (r : Rec) (now : Int) (x : Raised) (dur : Nat) : StoredStep :=
+def stepStoredRaw (env : Env) (l : Limits) (sp : Spelling) (r : Rec) (now : Int) (x : Raised) (dur : Nat) : StoredStep :=
   if r.finished then .idle true
   else if sp.delayedNaive && r.delayed.isSome then .raised
   else if r.sleeping now then .idle false
   else if sp.startedNaive && (l.timeout.isSome || !retriesOut l r.retries) then .raised
   else .att (attemptAt env l now r x dur 0)
+
+/-- The code as it is (e01f630): `from_storage` normalises the spelling first (`_as_utc`), then the
+    same gate and execution. -/
+def stepStored (env : Env) (l : Limits) (sp : Spelling) (r : Rec) (now : Int) (x : Raised) (dur : Nat) : StoredStep :=
+  stepStoredRaw env l sp.asUtc r now x dur
 
 /-- The whole history of one handler: cycles at arbitrary times, gated by `awakened`. -/
 def run (env : Env) (l : Limits) : Int → Rec → List Step → List Ev
@@ -287,6 +306,35 @@ def run (env : Env) (l : Limits) : Int → Rec → List Step → List Ev
         .att a :: run env l a.merged a.recAfter rest
       else
         .idle t r.finished :: run env l t r rest
+
+/-! ### One function registered for two reasons under one id (stacked decorators)
+
+  `@kopf.on.update` + `@kopf.on.delete` on one function = TWO handlers (each with its own `errors/retries/
+  timeout/backoff`) and ONE progress record, keyed by the id. When the second cause supersedes the first
+  at `t1` while the first handling is still open:
+  * top-level handlers since f7d6401 (`process_changing_cause`: the records of handlers that are declared
+    for the current reason but carry another purpose are left out of the state): the second handler
+    starts from scratch at the first cycle of its cause — `namesakeFresh`;
+  * before f7d6401, and STILL for the SUB-handlers of such a parent (`subhandling.execute` reads the
+    records by their ids whatever their purpose): the second handling goes on from the record the
+    first one left — `namesakeInherits`.
+  Handlers without a reason of their own (resuming mix-ins; `reason=None`) are one handler for every
+  cause: their record is re-purposed and the series goes on (`run` as it is). -/
+
+/-- The record a handling leaves behind: its last attempt's, else the one it started from. -/
+def lastRec (r0 : Rec) : List Ev → Rec
+  | [] => r0
+  | .att a :: rest => lastRec a.recAfter rest
+  | _ :: rest => lastRec r0 rest
+
+def namesakeFresh (env : Env) (l1 l2 : Limits) (t0 : Int) (s1 : List Step) (t1 : Int) (s2 : List Step) :
+    List Ev × List Ev :=
+  (run env l1 t0 (fromScratch t0) s1, run env l2 t1 (fromScratch t1) s2)
+
+def namesakeInherits (env : Env) (l1 l2 : Limits) (t0 : Int) (s1 : List Step) (t1 : Int) (s2 : List Step) :
+    List Ev × List Ev :=
+  let e1 := run env l1 t0 (fromScratch t0) s1
+  (e1, run env l2 t1 (lastRec (fromScratch t0) e1) s2)
 
 def attempts : List Ev → List Attempt
   | [] => []
